@@ -2,7 +2,7 @@
     Property theorems only (proofs: Proofs/ElabProofs.v).  The merge performed at class creation
     (Model/Elab.v, [decorate_namespace_fn]: base groups ++ own group, base postconditions ++ own)
     denotes, in the declarative semantics of Spec/CheckerSpec.v: *)
-From ICV Require Import Base Bind Checker CheckerSpec Elab ElabProofs.
+From ICV Require Import Base Bind Checker CheckerSpec Elab ElabProofs ElabCase ElabOracle ElabSkeleton.
 Open Scope string_scope.
 Open Scope list_scope.
 
@@ -63,3 +63,18 @@ Theorem C04_accept_all_refuted :
   | _ => []
   end = [[1%Z]].
 Proof. vm_compute. reflexivity. Qed.
+Print Assumptions C04_accept_all_refuted.
+
+(** The oracles of the elaboration cluster ([spec_C04] and the others in Spec/ElabOracle.v) judge an observed history on
+    the hierarchy its own outcomes give ([skeleton_world]).  On the model's own history that hierarchy is the one of the
+    world the model reaches: liveness, resolution orders and "created through the meta-class" read the same. *)
+Theorem C04_oracle_hierarchy_is_the_models ops :
+  let ws := skeleton_world ops (snd (run_defs empty_world ops)) in
+  let w := fst (run_defs empty_world ops) in
+  List.length (w_classes ws) = List.length (w_classes w)
+  /\ (forall k, is_live ws k = is_live w k)
+  /\ (forall k, mro_of ws k = mro_of w k)
+  /\ (forall k, match get_class ws k with Some c => co_meta c | None => false end
+                = match get_class w k with Some c => co_meta c | None => false end).
+Proof. exact (skeleton_reads_the_same ops). Qed.
+Print Assumptions C04_oracle_hierarchy_is_the_models.
